@@ -245,4 +245,230 @@ theorem setParam_expected_not_wr (hwf : app.WF) (i : Nat) (v : Val) (s : State) 
   expected_frame hwf hj _ _ (fun a ha => setParam_not_wr app i v s (anc_not_wr hwf hj h a ha))
 
 end App
+
+/-! ## values the callbacks store -/
+
+theorem clampInt_idem (mn mx : Option Int) (v : Int) :
+    clampInt mn mx (clampInt mn mx v) = clampInt mn mx v := by
+  unfold clampInt
+  cases mn <;> cases mx <;> simp only <;> grind
+
+theorem narrowChar_id {x : Int} (h1 : -128 ≤ x) (h2 : x ≤ 127) : narrowChar x = x := by
+  unfold narrowChar; omega
+
+theorem narrowChar_range (x : Int) : -128 ≤ narrowChar x ∧ narrowChar x ≤ 127 := by
+  unfold narrowChar; omega
+
+theorem clampInt_range (mn mx : Option Int) (v lo hi : Int) (hv : lo ≤ v ∧ v ≤ hi)
+    (h1 : ∀ a, mn = some a → lo ≤ a ∧ a ≤ hi) (h2 : ∀ a, mx = some a → lo ≤ a ∧ a ≤ hi) :
+    lo ≤ clampInt mn mx v ∧ clampInt mn mx v ≤ hi := by
+  unfold clampInt
+  cases mn <;> cases mx <;> simp only <;> grind
+
+theorem fltLt_iff (a b : UInt32) :
+    fltLt a b = true ↔ fltIsNaN a = false ∧ fltIsNaN b = false ∧ fltKey a < fltKey b := by
+  simp [fltLt, and_assoc]
+
+theorem clampFlt_idem (mn mx : Option UInt32)
+    (h1 : ∀ a, mn = some a → fltIsNaN a = false) (h2 : ∀ b, mx = some b → fltIsNaN b = false)
+    (h3 : ∀ a b, mn = some a → mx = some b → fltLt b a = false) (v : UInt32) :
+    clampFlt mn mx (clampFlt mn mx v) = clampFlt mn mx v := by
+  unfold clampFlt
+  cases mn <;> cases mx <;> simp only <;> grind [fltLt_iff]
+
+
+theorem enumKey_getElem (names : List Path) (hn : names.Nodup) (k : Nat) (hk : k < names.length) :
+    enumKey names (names.getD k []) = some k := by
+  unfold enumKey
+  rw [← List.getElem_eq_getD (h := hk)]
+  simp only [hn.idxOf_getElem k hk, hk, if_true]
+
+theorem storable_opt_int (names : List Path) (hn : names.Nodup) (i : Int) :
+    Storable (.opt names) (.int i) := by
+  unfold Storable mapArgVal
+  simp only
+  split
+  · next h =>
+    simp only [store, enumKey_getElem names hn _ h.2]
+    simp [Int.toNat_of_nonneg h.1]
+  · rfl
+
+theorem storable_of_store (k : Kind) (hk : KindOK k) (v v' : Val) (h : store k v = some v') :
+    Storable k v' := by
+  cases k with
+  | int mn mx =>
+    cases v <;> simp only [store, Option.some.injEq, reduceCtorEq] at h
+    subst h
+    simp [Storable, mapArgVal, store, clampInt_idem]
+  | chr =>
+    cases v <;> simp only [store, Option.some.injEq, reduceCtorEq] at h
+    subst h
+    rename_i c
+    generalize narrowChar c = y
+    have hr : 0 ≤ clampInt (some 0) (some 127) y ∧ clampInt (some 0) (some 127) y ≤ 127 := by
+      unfold clampInt; simp only; grind
+    simp only [Storable, mapArgVal, store, Option.some.injEq, Val.chr.injEq]
+    rw [narrowChar_id (by omega) (by omega), clampInt_idem]
+  | ichar mn mx =>
+    cases v <;> simp only [store, Option.some.injEq, reduceCtorEq] at h
+    subst h
+    rename_i c
+    have hr := clampInt_range mn mx (narrowChar c) (-128) 127 (narrowChar_range c) hk.1 hk.2
+    simp only [Storable, mapArgVal, store, Option.some.injEq, Val.int.injEq]
+    rw [narrowChar_id hr.1 hr.2, clampInt_idem]
+  | flt mn mx =>
+    cases v <;> simp only [store, Option.some.injEq, reduceCtorEq] at h
+    subst h
+    simp [Storable, mapArgVal, store, clampFlt_idem mn mx hk.1 hk.2.1 hk.2.2]
+  | tog =>
+    cases v <;> simp only [store, Option.some.injEq, reduceCtorEq] at h
+    subst h
+    rfl
+  | opt names =>
+    cases v <;> simp only [store, Option.some.injEq, reduceCtorEq] at h
+    · subst h; exact storable_opt_int names hk _
+    · subst h; exact storable_opt_int names hk _
+    · rename_i sy
+      cases he : enumKey names sy with
+      | none => simp [he] at h
+      | some k =>
+        simp [he] at h
+        subst h
+        exact storable_opt_int names hk _
+  | str len =>
+    cases v <;> simp only [store, Option.some.injEq, reduceCtorEq] at h
+    subst h
+    simp [Storable, mapArgVal, store, List.take_take]
+
+
+/-! ## the invariant (S1, S2) -/
+
+theorem evalDflt_mem_vals (p : Param) (s : State) :
+    ∃ v ∈ p.dflt.vals, evalDflt p s = canonicalize p.kind v := by
+  unfold evalDflt
+  cases hd : p.dflt with
+  | const v => exact ⟨v, by simp [Dflt.vals], rfl⟩
+  | preset par tbl fb =>
+    simp only [Dflt.vals]
+    cases presetKey (s par) with
+    | none => exact ⟨fb, by simp, rfl⟩
+    | some k =>
+      simp only [lookupPreset]
+      cases hf : tbl.find? (fun e => e.1 = k) with
+      | none => exact ⟨fb, by simp, by simp⟩
+      | some e =>
+        refine ⟨e.2, ?_, by simp⟩
+        exact List.mem_cons_of_mem _ (List.mem_map.mpr ⟨e, List.mem_of_find?_eq_some hf, rfl⟩)
+
+namespace App
+variable {app : App}
+
+theorem storable_evalDflt (hwf : app.WF) {i : Nat} (hi : i < app.size) (s : State) :
+    Storable (app.param i).kind (evalDflt (app.param i) s) := by
+  obtain ⟨v, hv, he⟩ := evalDflt_mem_vals (app.param i) s
+  rw [he]
+  exact hwf.dflt_storable i hi v hv
+
+theorem storable_expected (hwf : app.WF) {i : Nat} (hi : i < app.size) (s : State) :
+    Storable (app.param i).kind (expected (app.param i) s) := by
+  unfold expected
+  split
+  · exact storable_evalDflt hwf hi s
+  · rw [hwf.canon_ok i hi]; exact storable_evalDflt hwf hi _
+
+theorem expected_init (hwf : app.WF) {i : Nat} (hi : i < app.size) :
+    expected (app.param i) app.init = (app.param i).canon := by
+  unfold expected
+  split
+  · exact (hwf.canon_ok i hi).symm
+  · rfl
+
+theorem inv_setParam (hwf : app.WF) (s : State) (hs : app.Inv s) (i : Nat) (hi : i < app.size)
+    (v : Val) (hv : Storable (app.param i).kind v) (hg : guardsOn (app.param i) s = true) :
+    app.Inv (app.setParam i v s) := by
+  by_cases hne : (app.param i).kind = .tog ∧ s i = v
+  · have : app.setParam i v s = s := by unfold setParam; rw [if_pos hne]
+    rw [this]; exact hs
+  · have hgi : guardsOn (app.param i) (app.setParam i v s) = true := by
+      rw [guardsOn_frame hwf hi _ s (fun a ha => setParam_not_wr app i v s (anc_self_not_wr hwf hi a ha))]
+      exact hg
+    refine ⟨?_, ?_, ?_⟩
+    · intro j hj
+      by_cases hji : j = i
+      · subst hji; rw [setParam_self hwf]; exact hv
+      · by_cases hjd : j ∈ app.desc i
+        · rw [setParam_desc hwf i v s hne hjd]; exact storable_expected hwf hj _
+        · rw [setParam_not_wr app i v s (k := j) (by unfold wr; simp [hji, hjd])]
+          exact hs.storable j hj
+    · intro j hj hjg
+      by_cases hji : j = i
+      · subst hji; rw [hgi] at hjg; cases hjg
+      · by_cases hjd : j ∈ app.desc i
+        · rw [setParam_desc hwf i v s hne hjd]; unfold expected; rw [hjg]; rfl
+        · have hnw : ¬ app.wr i j := by unfold wr; simp [hji, hjd]
+          rw [setParam_not_wr app i v s hnw]
+          apply hs.hidden_canon j hj
+          rw [← hjg]
+          exact (guardsOn_frame hwf hj _ s
+            (fun a ha => setParam_not_wr app i v s (anc_not_wr hwf hj hnw a ha))).symm
+    · intro j hj
+      have hnw : ¬ app.wr i j := by
+        rintro (rfl | h)
+        · omega
+        · have := ((mem_desc app).mp h).1; omega
+      rw [setParam_not_wr app i v s hnw]
+      exact hs.outside j hj
+
+end App
+
+/-- S1 -/
+theorem inv_init (app : App) (hwf : app.WF) : app.Inv app.init := by
+  refine ⟨?_, fun _ _ _ => rfl, fun _ _ => rfl⟩
+  intro i hi
+  show Storable _ (app.param i).canon
+  rw [hwf.canon_ok i hi]
+  exact App.storable_evalDflt hwf hi _
+
+/-- S2 -/
+theorem inv_dispatch (app : App) (hwf : app.WF) (s s' : State) (hs : app.Inv s) (addr : Path)
+    (args : List Val) (h : app.dispatch addr args s = some s') : app.Inv s' := by
+  unfold App.dispatch at h
+  cases hf : app.findAddr addr with
+  | none => simp [hf] at h
+  | some i =>
+    have hi := (App.findAddr_some app hf).1
+    simp only [hf] at h
+    split at h
+    · cases h
+    · match args, h with
+      | [], h => cases h; exact hs
+      | [v], h =>
+        simp only at h
+        cases hst : store (app.param i).kind v with
+        | none => simp [hst] at h
+        | some v' =>
+          simp only [hst] at h
+          split at h
+          · next hg =>
+            cases h
+            exact App.inv_setParam hwf s hs i hi v' (storable_of_store _ (hwf.kind_ok i hi) v v' hst) hg
+          · cases h; exact hs
+      | _ :: _ :: _, h => simp at h
+
+theorem inv_run (app : App) (hwf : app.WF) (msgs : List (Path × List Val)) (s : State)
+    (hs : app.Inv s) : app.Inv (app.run msgs s) := by
+  induction msgs generalizing s with
+  | nil => exact hs
+  | cons m r ih =>
+    show app.Inv (app.run r ((app.dispatch m.1 m.2 s).getD s))
+    apply ih
+    cases hd : app.dispatch m.1 m.2 s with
+    | none => exact hs
+    | some s' => exact inv_dispatch app hwf s s' hs _ _ hd
+
+theorem inv_reachable (app : App) (hwf : app.WF) (s : State) (h : app.Reachable s) : app.Inv s := by
+  obtain ⟨msgs, rfl⟩ := h
+  exact inv_run app hwf msgs _ (inv_init app hwf)
+
+
 end Rtosc.Save
